@@ -79,6 +79,20 @@ QN_MSG = "Inconsistent quantum number size"
 
 
 # ------------------------------------------------------------------------------------------------- helpers
+class BrokenNetwork(Exception):
+    """The tensors of a TTNS returned by the library cannot be contracted along the tree."""
+
+
+def safe_dense(t, order, with_coeff=True):
+    from rv import tree_states as ts
+    try:
+        v = ts.dense_tensor_of_ttns(t, order)
+    except (ValueError, AssertionError, IndexError) as e:
+        raise BrokenNetwork(f"{type(e).__name__}: {str(e)[:120]}; shapes "
+                            f"{[tuple(nd.tensor.shape) for nd in t.node_list][:12]}") from e
+    return v * t.coeff if with_coeff else v
+
+
 class Obj:
     """A pool member: the TTNS, the dense vector it must represent, its twin on the child-permuted tree."""
     __slots__ = ("t", "ref", "m", "trace", "scale")
@@ -120,10 +134,15 @@ class World:
         return self.perms[i].index(j)
 
     def dense(self, t):
-        return self.ts.dense_of_ttns(t, self.gm)
+        return self.tdense(t) * t.coeff
 
     def tdense(self, t):
-        return self.ts.dense_tensor_of_ttns(t, self.gm)
+        try:
+            return self.ts.dense_tensor_of_ttns(t, self.gm)
+        except (ValueError, AssertionError, IndexError) as e:
+            # the node tensors no longer fit together (bond dimensions of neighbours differ, wrong rank)
+            raise BrokenNetwork(f"{type(e).__name__}: {str(e)[:120]}; shapes "
+                                f"{[tuple(nd.tensor.shape) for nd in t.node_list][:12]}") from e
 
 
 def call(ctx, world, what, fn, *args, **kwargs):
@@ -864,7 +883,7 @@ def scenario_from_mps(ctx, gm, qntot):
         model = Model(list(gm.basis), terms)
     mps = ctx.lib(states.random_state, ctx, gm, model, qntot, what="chain-state-constructor", promised=False)
     tr = []
-    with_coeff = rng.random() < 0.3
+    with_coeff = rng.random() < 0.5
     f = ctx.lib(states.gauge_history, rng, mps, 3, tr, allow_coeff=with_coeff, what="chain-gauge-history", promised=False)
     before = states.dense_of(mps).reshape(-1)
     tensor_before = np.asarray(mps.todense()).reshape(-1)
@@ -876,12 +895,12 @@ def scenario_from_mps(ctx, gm, qntot):
         return
     ctx.count("oracle", 3)
     scale = max(float(np.linalg.norm(tensor_before)), 1e-300)
-    got_t = ts.dense_tensor_of_ttns(ttns, gm)
+    got_t = safe_dense(ttns, gm, False)
     ok = ctx.close(got_t, tensor_before, TOL, "from_mps|dense-vector-not-preserved", scale=scale, trace=tr)
     ctx.check([id(b) for b in basis.basis_list] == [id(b) for b in list(gm.basis)[::-1]], "from_mps|basis-order-not-reversed")
     if ok and abs(mps.coeff - 1) > 1e-12:
         ctx.cls("from_mps:coeff!=1")
-        ctx.close(ts.dense_of_ttns(ttns, gm), before, TOL, "from_mps|coeff-dropped", scale=max(float(np.linalg.norm(before)), 1e-300),
+        ctx.close(safe_dense(ttns, gm), before, TOL, "from_mps|coeff-dropped", scale=max(float(np.linalg.norm(before)), 1e-300),
                   mps_coeff=complex(mps.coeff), ttns_coeff=complex(ttns.coeff))
     ctx.close(states.dense_of(mps).reshape(-1), before, TOL, "from_mps|input-changed", scale=max(float(np.linalg.norm(before)), 1e-300))
     d = ts.max_isometry_defect(ttns)
@@ -930,7 +949,7 @@ def scenario_aux_space(ctx, world, gm, tree, qntot):
         return
     dimq = int(np.prod([b.nbas for b in phys]))
     big = np.kron(oref, np.eye(dimq))
-    psi = ts.dense_tensor_of_ttns(t, order)
+    psi = safe_dense(t, order, False)
     ok, o = call(ctx, world, "TTNO", TTNO, tree, list(terms))
     if not ok:
         return
@@ -948,14 +967,14 @@ def scenario_aux_space(ctx, world, gm, tree, qntot):
         return
     ctx.count("oracle")
     ctx.count("partial_oracle")
-    ctx.close(ts.dense_of_ttns(res, order), big @ psi, TOL, "apply(aux-space-partial-operator)|dense-mismatch", scale=scale)
+    ctx.close(safe_dense(res, order), big @ psi, TOL, "apply(aux-space-partial-operator)|dense-mismatch", scale=scale)
     if np.linalg.norm(big @ psi) > 1e-8 * scale:
         cp = res.copy()
         ok, _ = call(ctx, world, "apply(aux-space-partial-operator)|post-canonicalise", cp.canonicalise)
         if not ok:
             return
         ctx.count("oracle")
-        ctx.close(ts.dense_of_ttns(cp, order), big @ psi, TOL, "apply(aux-space-partial-operator)|wrong-after-canonicalise", scale=scale)
+        ctx.close(safe_dense(cp, order), big @ psi, TOL, "apply(aux-space-partial-operator)|wrong-after-canonicalise", scale=scale)
         p = ts.tree_label_problems(cp)
         ctx.check(not p, "apply(aux-space-partial-operator)|labels-inconsistent", problems=p[:3])
 
@@ -969,6 +988,14 @@ CHANGING = {"add", "scale", "apply", "normalize", "canonicalise", "compress", "c
 
 
 def run_case(ctx):
+    state = {"step": "setup"}
+    try:
+        _run_case(ctx, state)
+    except BrokenNetwork as e:
+        ctx.violate(f"{state['step']}|network-not-contractable", message=str(e))
+
+
+def _run_case(ctx, state):
     from rv import tree_states as ts, trees
     rng = ctx.rng
     gm = build_model(ctx)
@@ -991,12 +1018,15 @@ def run_case(ctx):
 
     # ---- side scenarios ---------------------------------------------------------------------------------
     if rng.random() < 0.3:
+        state["step"] = "from_mps"
         scenario_from_mps(ctx, gm, qntot)
     if gm.dim <= 24 and not any(b.multi_dof for b in gm.basis) and rng.random() < 0.7:
+        state["step"] = "apply(aux-space-partial-operator)"
         scenario_aux_space(ctx, world, gm, tree, qntot)
 
     # ---- pool and operators ------------------------------------------------------------------------------
     pool = []
+    state["step"] = "state-constructor"
     for _ in range(int(rng.integers(2, 4))):
         o = new_state(ctx, world, qntot)
         if not compare(ctx, world, o, "state-constructor"):
@@ -1027,6 +1057,7 @@ def run_case(ctx):
         kind_ = names[int(rng.choice(len(names), p=weights))]
         a = pool[int(rng.integers(0, len(pool)))]
         new = None
+        state["step"] = kind_
         ctx.evaluations += 1
         nviol = len(ctx.violations)
         if kind_ == "add":
